@@ -8,6 +8,11 @@ Tie to the code, all against the build of /repo's working tree:
   (b) end to end: generated valid nOS-V / Nanos6 traces through `ovniemu -b`; an independent
       decider (Python below, cross-checked with the extracted Coq rows_ok) is applied to the
       *-breakdown.prv rows against the per-CPU values derived from cpu.prv of the same run.
+
+The model is the one of connect_cpu as repaired by /repo commit bca364a (mux_add_reselect on the task
+type channel; former finding keys nosv-task-pause-in-body / nanos6-task-pause-in-body).  A tree without
+the repair fails the wiring part of (a) on task-type-only batches, the in-process witnesses and the corpus cases 01/02
+with concrete inputs.
 """
 import hashlib
 import itertools
@@ -331,11 +336,17 @@ def check_wiring(chk, name, hx, oracle, K, corr_broken):
     impl = impl_batch(hx, lines, timeout=1200)
     modl = common.batch(oracle, lines, timeout=1200) if oracle else [None] * len(lines)
     verd = common.batch(oracle, ["O" + l[1:] for l in lines], timeout=1200) if oracle else [None] * len(lines)
-    for (segs, cls), ln, i, m, vd in zip(scripts, lines, impl, modl, verd):
+    # where the tree disagrees with the model of the repaired connect_cpu: does it behave like the
+    # code before /repo commit bca364a (model variant fx = false, oracle command w)?
+    differ = [k for k in range(len(lines)) if modl[k] is not None and impl[k] != modl[k]]
+    oldm = dict(zip(differ, common.batch(oracle, ["w" + lines[k][1:] for k in differ], timeout=1200))) if oracle and differ else {}
+    for k, ((segs, cls), ln, i, m, vd) in enumerate(zip(scripts, lines, impl, modl, verd)):
         chk.case(("W", name, ln))
         chk.count("wiring-%s:%s" % (name, cls))
         if m is not None and i != m:
             corr_broken.append(("W-" + name, ln[:300], i[:300], m[:300]))
+            chk.count("wiring-%s:%s" % (name, "differs-from-model:equals-pre-bca364a-model" if oldm.get(k) == i
+                                         else "differs-from-model:equals-neither-variant"))
         # spec on the implementation: while every batch so far is admissible (model's batch_ok),
         # the sort module must hold bd_value of the CPU's channels
         if vd is None or "error" in i or "crash" in i:
@@ -355,16 +366,23 @@ def check_wiring(chk, name, hx, oracle, K, corr_broken):
             f = part.split()
             want = spec_bd_value(K, cur["T"], cur["S"], cur["I"])
             if int(f[2]) != want:
+                old = (" (the tree behaves like connect_cpu before /repo commit bca364a, without mux_add_reselect on the task type: "
+                       "the repaired defect is back)") if oldm.get(k) == i else ""
                 chk.violation("wiring:%s:%s" % (name, hashlib.md5(ln.encode()).hexdigest()[:12]),
-                              "%s breakdown wiring: after admissible batch %r the sort input holds %s, breakdown value is %d" % (name, seg, f[2], want),
-                              {"how": "harness/sort_h.c line: " + ln, "impl": i, "model": m})
+                              "%s breakdown wiring: after admissible batch %r the sort input holds %s, breakdown value is %d%s" % (name, seg, f[2], want, old),
+                              {"how": "harness/sort_h.c line: " + ln, "impl": i, "model": m, "model_of_code_before_bca364a": oldm.get(k)})
                 break
             chk.count("wiring-%s:admissible-batch-checked" % name)
     chk.sample({"op": "breakdown wiring " + name, "line": lines[-1][:300], "impl": impl[-1][:300], "model": (modl[-1] or "")[:300]})
 
 
 def replay_witnesses_inprocess(chk, name, hx, oracle, K, corr_broken):
-    """the Coq witnesses (C20_wiring_refuted, .._resume_refuted, C20_wiring_order_needed) on the real pipeline"""
+    """The histories of the Coq witnesses on the real pipeline.
+    pause / resume: witnesses of the defect repaired by /repo commit bca364a (C20_wiring_refuted_old,
+    C20_wiring_resume_refuted_old on the model of the old code); the repaired code must show the breakdown value
+    (C20_wiring_witnesses_fixed), anything else is a violation with this concrete input.
+    order: C20_wiring_order_needed, a batch the emulator cannot produce (idle dirty before the subsystem);
+    model correspondence only."""
     body, unknown, prog = K
     b, p, r = str(body), str(prog), str(prog + 1)
     wit = {
@@ -372,17 +390,35 @@ def replay_witnesses_inprocess(chk, name, hx, oracle, K, corr_broken):
         "resume": "T=N,S=N,I=%s|S=%s,T=77|T=N|T=N,S=N,I=%s|T=N,S=%s,I=%s|T=77" % (p, b, r, b, p),
         "order": "T=N,S=6,I=%s|I=%s,S=7" % (p, p),
     }
+    # sort input at the end: (before the repair, required = breakdown value)
     exp = {"pause": (0, body), "resume": (body, 77), "order": (6, 7)}
     out = {}
     for k, sc in wit.items():
         ln = "W %d %d %d %s" % (body, unknown, prog, sc)
-        i = common.batch(hx, [ln])[0]
+        i = impl_batch(hx, [ln])[0]
         m = common.batch(oracle, [ln])[0] if oracle else None
         if m is not None and i != m:
             corr_broken.append(("W-witness-" + name, ln, i, m))
+        chk.case(("W-witness", name, ln))
         last = i.split(" | ")[-1].split()
-        out[k] = {"script": sc, "impl_last": " ".join(last), "sort_value": int(last[2]), "coq_witness": exp[k]}
-        chk.count("witness-%s-%s:%s" % (name, k, "reproduced" if int(last[2]) == exp[k][0] else "not-reproduced"))
+        if "error" in i or "crash" in i or len(last) < 3:
+            chk.violation("wiring-error:%s:witness-%s" % (name, k), "breakdown wiring (%s) failed on %s: %s" % (name, ln, i), {"line": ln, "impl": i})
+            continue
+        got = int(last[2])
+        out[k] = {"script": sc, "impl_last": " ".join(last), "sort_value": got,
+                  ("stale_value_of_the_hazard" if k == "order" else "value_before_repair_bca364a"): exp[k][0], "breakdown_value": exp[k][1]}
+        if k == "order":
+            chk.count("witness-%s-order:%s" % (name, "hazard-reproduced" if got == exp[k][0] else "hazard-not-reproduced"))
+            continue
+        if got == exp[k][1]:
+            chk.count("witness-%s-%s:correct-row" % (name, k))
+        else:
+            chk.count("witness-%s-%s:%s" % (name, k, "old-defect-reproduced" if got == exp[k][0] else "wrong-row"))
+            chk.violation("wiring-witness:%s:%s" % (name, k),
+                          "%s breakdown wiring: task %s while 'Task: In body' is the top subsystem: the sort input holds %d, the breakdown "
+                          "value is %d%s" % (name, "paused" if k == "pause" else "paused, CPU left and re-entered, task resumed", got, exp[k][1],
+                                             " (defect repaired by /repo commit bca364a is back: mux0 keeps a stale selection)" if got == exp[k][0] else ""),
+                          {"how": "harness/sort_h.c line: " + ln, "impl": i, "model": m})
     chk.coverage["witness_replay_inprocess_" + name] = out
     return out
 
@@ -764,8 +800,9 @@ def check_e2e(chk, build, m, oracle, ncases):
         bare = (k % 4 == 3)
         ncpu, threads, desc, nbare = gen_trace(r, m, bare)
         cases.append({"k": k, "bare": bare, "ncpu": ncpu, "threads": threads, "desc": desc, "nbare": nbare})
-    # corpus first (corpus/C20/*.json): the Coq witness OHx ; VTx ; VTp (C20_wiring_refuted) with its mirror
-    # image OHp ; OHr ; VTr, for each model, and a clean two-CPU case
+    # corpus first (corpus/C20/*.json): the history OHx ; VTx ; VTp with its mirror image OHp ; OHr ; VTr for each
+    # model (regression cases of the defect repaired by /repo commit bca364a; C20_wiring_refuted_old on the model
+    # of the old code), and a clean two-CPU case.  All of them expect verdict ok.
     cdir = os.path.join(common.VERIF, "corpus", "C20")
     corpus = []
     for f in sorted(os.listdir(cdir)) if os.path.isdir(cdir) else []:
@@ -779,7 +816,7 @@ def check_e2e(chk, build, m, oracle, ncases):
         desc = sorted("%d %d %s" % (e[0], tid, e[1]) for tid, evs in threads.items() for e in evs)
         desc.sort(key=lambda x: int(x.split()[0]))
         corpus.append({"k": "corpus-" + cj["name"], "bare": cj.get("bare", False), "ncpu": cj["ncpu"], "threads": threads,
-                       "desc": desc, "nbare": cj.get("nbare", 0)})
+                       "desc": desc, "nbare": cj.get("nbare", 0), "expect": cj.get("expect", "ok")})
     chk.count("e2e-%s:corpus-cases" % m.name, len(corpus))
     cases = corpus + cases
     try:
@@ -807,6 +844,10 @@ def check_e2e(chk, build, m, oracle, ncases):
             chk.coverage.setdefault("e2e_rejected_examples", [])
             if len(chk.coverage["e2e_rejected_examples"]) < 3:
                 chk.coverage["e2e_rejected_examples"].append({"model": m.name, "stderr": err[-400:], "events": cs["desc"][-6:]})
+            if cs.get("expect") == "ok":
+                chk.violation("corpus:%s:rejected" % cs["k"],
+                              "ovniemu -b rejects the corpus trace %s (%s), expected rows = sorted per-CPU values: %s" % (cs["k"], m.name, err[-300:]),
+                              {"model": m.name, "ncpu": cs["ncpu"], "events(clock tid mcv)": cs["desc"], "stderr": err[-600:]})
             continue
         verdict, detail, nchecked = res
         chk.count("e2e-%s:%s:%s" % (m.name, cls, verdict))
@@ -819,10 +860,13 @@ def check_e2e(chk, build, m, oracle, ncases):
         if verdict == "ok":
             continue
         if verdict == "stale-in-body" and cs["nbare"] > 0:
+            # the defect repaired by /repo commit bca364a (same key as the former known finding, one report per model)
             chk.violation("%s-task-pause-in-body" % m.name,
-                          "%s breakdown: a task paused/resumed while 'Task: In body' is the top subsystem (as test/emu/nosv/pause.c does) leaves "
-                          "mux0 on a stale input: the row shows 0 (or keeps 'In body') instead of select_tr's value, and the value depends on history "
-                          "(Coq: C20_wiring_refuted, C20_wiring_history_dependent_refuted)" % m.name, replay)
+                          "%s breakdown rows at time %s are %s but the per-CPU values are %s: a task paused/resumed while 'Task: In body' is the "
+                          "top subsystem (as test/emu/nosv/pause.c does) leaves mux0 on a stale input, the row shows 0 (or keeps 'In body') instead "
+                          "of select_tr's value. This is the defect repaired by /repo commit bca364a (mux_add_reselect on the task type channel; "
+                          "Coq, model of the old code: C20_wiring_refuted_old, C20_wiring_history_dependent_refuted_old)" % (
+                              m.name, detail.get("time"), detail.get("rows"), detail.get("percpu")), replay)
             continue
         h = hashlib.md5("\n".join(cs["desc"]).encode()).hexdigest()[:12]
         chk.violation("e2e-%s:%s:%s" % (m.name, verdict, h),
